@@ -1,1 +1,2 @@
 import Generated.Fields
+import Generated.Shapes
